@@ -77,16 +77,15 @@ func (m *MMap) Write(b []byte) (int, error) {
 }
 
 func (m *MMap) Sync() error {
+	// 映射已被 ResetFileSize 解除时, 数据已全部刷盘, 仅需同步文件本身
+	if m.activeMap == nil {
+		return m.file.Sync()
+	}
 	return m.activeMap.Flush()
 }
 
 func (m *MMap) Close() error {
-	if err := m.activeMap.Flush(); err != nil {
-		return err
-	}
-	if err := m.activeMap.Unmap(); err != nil {
-		return err
-	}
+	// 持久化、解除映射并恢复文件真实大小
 	if err := m.ResetFileSize(); err != nil {
 		return err
 	}
@@ -98,6 +97,17 @@ func (m *MMap) Size() (int64, error) {
 }
 
 func (m *MMap) ResetFileSize() error {
+	// 截断前必须先持久化并解除映射: 文件缩小后继续访问原映射中超出文件末尾的页会触发 SIGBUS
+	if m.activeMap != nil {
+		if err := m.activeMap.Flush(); err != nil {
+			return err
+		}
+		if err := m.activeMap.Unmap(); err != nil {
+			return err
+		}
+	}
+	// 映射边界失效, 下次读写时重新映射并扩展文件
+	m.endOff = 0
 	return m.file.Truncate(m.virtualSize)
 }
 
